@@ -17,7 +17,7 @@ ZeroM(n) == [i \in 1 .. n |-> [j \in 1 .. n |-> F0]]
 Transp(A) == [i \in 1 .. Len(A) |-> [j \in 1 .. Len(A) |-> A[j][i]]]
 \* abstraction function of the two storage layouts: `lines` are the stored
 \* vectors (rows of a row-major matrix, columns of a column-major one)
-Abs(lay, lines) == IF lay = "r" THEN lines ELSE Transp(lines)
+AbsLay(lay, lines) == IF lay = "r" THEN lines ELSE Transp(lines)
 Row(A, i) == A[i]
 Col(A, j) == [i \in 1 .. Len(A) |-> A[i][j]]
 Dot(u, v) == FSum([k \in 1 .. Len(u) |-> FMul(u[k], v[k])])
